@@ -76,6 +76,7 @@ type c15Result struct {
 	PeerRead            int  `json:"peer_read,omitempty"`             // no-read receiver: bytes it read before it stopped reading
 	PeerEnded           bool `json:"peer_ended,omitempty"`            // no-read: the script closed all of its streams and its connection
 	Finalized           int  `json:"finalized,omitempty"`             // no-read sender: files the receiver had completed (hook recv.finalize.before) when the sender ended
+	BeginHandled        int  `json:"begin_handled,omitempty"`         // ep-recv: FileBegin records the receiver handled to the end (hook recv.begin.handled) during this case
 	PeerStalled         bool `json:"peer_stalled,omitempty"`          // no-read sender: its own writes were still blocked (the receiver had stopped reading) when it ended
 }
 
@@ -236,6 +237,7 @@ func c15DecoderInputs(e *Env) []c15Input {
 	lmb := legacyManifestBytes()
 	mutateInto(&list, "legacy-manifest", "manifest", lmb, r, e.Thorough())
 	c15EnumDecoderInputs(e, r, &list, recs, lmb)
+	c15ManifestDecoderInputs(&list)
 	mutateInto(&list, "legacy-file", "file", legacyFileBytes(), r, e.Thorough())
 	mutateInto(&list, "dumb", "dumb", dumbBytes(), r, e.Thorough())
 	mutateInto(&list, "sidecar", "sidecar", sidecarBytes(e.Work), r, e.Thorough())
@@ -465,7 +467,7 @@ func c15PriorSession(out string, ctrl []byte) {
 		return
 	}
 	for _, it := range hm.Items {
-		if it.IsDir || !strings.HasSuffix(it.RelPath, "a.bin") {
+		if it.IsDir || !strings.HasSuffix(it.RelPath, "a.bin") || it.Size < 0 || it.Size > 1<<20 {
 			continue
 		}
 		fp := filepath.Join(out, filepath.FromSlash(it.RelPath))
@@ -542,6 +544,7 @@ func c15RunEndpoint(lp *vk.ListenerPool, in c15Input, work string) (res c15Resul
 	var ms1, ms2 runtime.MemStats
 	runtime.GC()
 	runtime.ReadMemStats(&ms1)
+	beginHandled0 := verifhook.Hits("recv.begin.handled")
 	done := make(chan error, 1)
 	returned := make(chan struct{})
 	// linger gives the endpoint time to act on what it was sent before the
@@ -748,6 +751,9 @@ func c15RunEndpoint(lp *vk.ListenerPool, in c15Input, work string) (res c15Resul
 	}
 	res.ChunkStored = chunkStored.Load()
 	res.SawChunk0 = sawChunk0.Load()
+	if in.Target == "ep-recv" && in.Class != "canary" && !in.Again {
+		res.BeginHandled = int(verifhook.Hits("recv.begin.handled") - beginHandled0)
+	}
 	if in.Target == "ep-send" {
 		res.BigInfos = int(c15BigInfos.Load())
 	}
@@ -1096,6 +1102,7 @@ func c15EndpointInputs(e *Env, ctrlW, ctrlR, dataW []byte) []c15Input {
 	hostile("end-immediately", append(ds1(), transfer.VerifTypeEnd))
 	c15FieldInputs(e, r, ctrlW, ctrlR, dataW, hdrLen, func(in c15Input) { list = append(list, in) })
 	c15Round4Inputs(e, func(in c15Input) { list = append(list, in) })
+	c15ManifestEndpointInputs(e, ctrlW, dataW, hdrLen, func(in c15Input) { list = append(list, in) })
 	for i := range list {
 		list[i].ID = fmt.Sprintf("E%06d", i)
 	}
@@ -1215,7 +1222,7 @@ func c15Key(in c15Input, kind string) string {
 }
 
 func runC15(e *Env) {
-	e.R.Rule = "(a) decoders (control records, control header, legacy manifest and file receivers, dumb receiver header, LoadSidecar) fed from an in-memory stream in child processes: every valid record type truncated at every byte, every 1/2/4-byte field position set to {0,1,0xFFFF,0x7FFFFFFF,0x80000000,0xFFFFFFFF}, every enumeration/flag byte (record type, FileBegin hash algorithm, FileDone ok, legacy record types) swept over its values, seeded random bytes; (b) the real RecvManifestMultiStream / SendManifestMultiStream over loopback QUIC, under the library option set, the option set internal/app passes (progress/delta/stats/resume-stats/file-done callbacks on the real progress objects, ParamSource, path resolver) and the empty option set, against a script that (b1) replays a recorded valid trace with the same kinds of mutation on the control stream and the data stream at every protocol stage and then closes the connection, (b2) sets each peer-chosen enumeration/flag byte to its values in the history in which the endpoint consumes it (FileBegin.HashAlg: fresh file / chunk stored then ResumeRequest / earlier session's sidecar on disk; record type byte at each stage; FileDone.OK after FileEnd; resume report bitmap/counts/verified chunk/hash sentinel after ResumeRequest), (b3) ends one stream inside a record (FIN or reset, data stream inside a chunk payload / frame header / at a frame boundary, acknowledgement stream inside a record) and keeps the other streams open, (b4) answers the ResumeRequest for a file of 21 or 70 chunks with a resume report whose bitmap has 0 / 1 / needed-1 / needed / needed+1 / 2 x needed bytes and whose TotalChunks is the real count / 0 / 8 x the bitmap length, bits all clear or all set, with and without a chunk to verify (honest reports for the sender's other files; with and without ResumeStatsFn), (b5) never reads what the endpoint writes and then ends every stream and the connection: a sender that completes 4..40 empty or one-chunk files over 1..2 announced data streams (with and without ResumeRequests) and never reads an acknowledgement, and a receiver that stops reading after nothing / the header / K control records / K data frames while the sender has four files to send; over the repository's in-memory transport (an unread write blocks at once, so the receiver's acknowledgement queue of 8 per data stream fills) and over QUIC (the unread bytes fit the window); monitors: process death (attributed to the logged case), recovered panic, return after the input ended (watchdog + canary; for b3 payload and acknowledgement classes: return while the other streams are still open; for b5: return within 10 s of the moment the peer has closed everything), TotalAlloc delta <= 4 MiB + 64 x input bytes; distinct by (input bytes, option set, history)"
+	e.R.Rule = "(a) decoders (control records, control header, legacy manifest and file receivers, dumb receiver header, LoadSidecar) fed from an in-memory stream in child processes: every valid record type truncated at every byte, every 1/2/4-byte field position set to {0,1,0xFFFF,0x7FFFFFFF,0x80000000,0xFFFFFFFF}, every enumeration/flag byte (record type, FileBegin hash algorithm, FileDone ok, legacy record types) swept over its values, seeded random bytes; (b) the real RecvManifestMultiStream / SendManifestMultiStream over loopback QUIC, under the library option set, the option set internal/app passes (progress/delta/stats/resume-stats/file-done callbacks on the real progress objects, ParamSource, path resolver) and the empty option set, against a script that (b1) replays a recorded valid trace with the same kinds of mutation on the control stream and the data stream at every protocol stage and then closes the connection, (b2) sets each peer-chosen enumeration/flag byte to its values in the history in which the endpoint consumes it (FileBegin.HashAlg: fresh file / chunk stored then ResumeRequest / earlier session's sidecar on disk; record type byte at each stage; FileDone.OK after FileEnd; resume report bitmap/counts/verified chunk/hash sentinel after ResumeRequest), (b3) ends one stream inside a record (FIN or reset, data stream inside a chunk payload / frame header / at a frame boundary, acknowledgement stream inside a record) and keeps the other streams open, (b4) answers the ResumeRequest for a file of 21 or 70 chunks with a resume report whose bitmap has 0 / 1 / needed-1 / needed / needed+1 / 2 x needed bytes and whose TotalChunks is the real count / 0 / 8 x the bitmap length, bits all clear or all set, with and without a chunk to verify (honest reports for the sender's other files; with and without ResumeStatsFn), (b5) never reads what the endpoint writes and then ends every stream and the connection: a sender that completes 4..40 empty or one-chunk files over 1..2 announced data streams (with and without ResumeRequests) and never reads an acknowledgement, and a receiver that stops reading after nothing / the header / K control records / K data frames while the sender has four files to send; over the repository's in-memory transport (an unread write blocks at once, so the receiver's acknowledgement queue of 8 per data stream fills) and over QUIC (the unread bytes fit the window), (b6) sends a header whose manifest is well-formed JSON in which one field of the manifest object (root, items, total_bytes, file_count, folder_count) or of a file item (id, rel_path, size, mod_time, is_dir) is absent / empty / null / of the wrong type / 0, 1, -1, min/max int64, 2^32, 2^40, 1e30 / equal to another item's value / 300 characters long (items: absent, null, [], [null], the file item twice, reversed, alone), and then goes on consistently with what the receiver decoded: the rest of the recorded exchange, or DataStreams + the FileBegin of that very item (its path, size and file key as decoded) + its chunks (fresh file), + a ResumeRequest once a chunk is stored, or with an earlier session's data file and sidecar of that item on disk; the same manifests go into the header decoder and the legacy manifest receiver; monitors: process death (attributed to the logged case), recovered panic, return after the input ended (watchdog + canary; for b3 payload and acknowledgement classes: return while the other streams are still open; for b5: return within 10 s of the moment the peer has closed everything), TotalAlloc delta <= 4 MiB + 64 x input bytes; distinct by (input bytes, option set, history)"
 	dec := c15DecoderInputs(e)
 	ctrlW, ctrlR, dataW, ok := c15Record(e)
 	if !ok {
@@ -1304,6 +1311,7 @@ func runC15(e *Env) {
 	fieldOut := map[string]map[string]int{} // field@history -> outcome counts
 	holdOut := map[string]map[string]int{}  // stream-end class -> outcome counts
 	noReadOut := map[string]map[string]int{} // peer-never-reads: target:transport[option set] -> outcome counts
+	mfOut := map[string]map[string]int{}     // manifest-field classes: field@history[option set] / field[decoder] -> outcome counts
 	bump := func(m map[string]map[string]int, k, what string) {
 		if m[k] == nil {
 			m[k] = map[string]int{}
@@ -1321,6 +1329,7 @@ func runC15(e *Env) {
 		e.R.Eval()
 		e.R.Distinct(fmt.Sprintf("%s[%s%s%s%s]:%x:%s", in.Target, in.Opts, in.Hold, in.Pre, in.Tree, vk.HashStr(in.Hex+"|"+in.Data+"|"+in.Hex2), in.Class))
 		perTarget[in.Target]++
+		c15ManifestTally(mfOut, in, res)
 		if strings.HasPrefix(in.Target, "ep-") {
 			perOpts[in.Target+"["+optName(in.Opts)+"]"]++
 			if i := strings.Index(in.Class, "field:"); i >= 0 && (strings.Contains(in.Class, "@")) {
@@ -1480,7 +1489,9 @@ func runC15(e *Env) {
 	e.R.SetExtra("field_class_outcomes", fieldOut)
 	e.R.SetExtra("stream_end_outcomes", holdOut)
 	e.R.SetExtra("peer_never_reads_outcomes", noReadOut)
+	e.R.SetExtra("manifest_field_outcomes", mfOut)
 	if !filtered {
+		c15ManifestRequire(e, mfOut)
 		for _, k := range []string{"ep-recv[lib]", "ep-recv[app]", "ep-send[lib]", "ep-send[app]", "ep-recv[app-mc]", "ep-send[app-mc]"} {
 			e.R.Require(perOpts[k] >= 40, fmt.Sprintf("only %d endpoint results for %s", perOpts[k], k))
 		}
